@@ -163,6 +163,16 @@ class ClassGraph:
         if len(node.args) < 2:
             return None
         a = node.args[1]
+        if isinstance(a, ast.Name):
+            # the name built in a local first: method_name = "_%s_authentication" % mech
+            fn = node
+            while fn is not None and not isinstance(fn, (ast.FunctionDef, ast.AsyncFunctionDef)):
+                fn = getattr(fn, "_parent", None)
+            if fn is not None:
+                ds = [d.value for d in walk_no_nested(fn) if isinstance(d, ast.Assign) and len(d.targets) == 1 and isinstance(d.targets[0], ast.Name)
+                      and d.targets[0].id == a.id]
+                if len(ds) == 1:
+                    a = ds[0]
         if isinstance(a, ast.Constant) and isinstance(a.value, str):
             return [a.value] if a.value in self.methods else []
         fmt = None
